@@ -5,6 +5,7 @@
 import Rox.Spec.Tree
 import Rox.Lemmas.BInv4
 import Rox.Lemmas.NoAdjText
+import Rox.Lemmas.SingleRoot
 
 namespace Rox.Props.C02
 open Rox Rox.Spec Rox.Lemmas
@@ -110,6 +111,15 @@ theorem parsed_wf (T : Tables) (txt : Bytes) (opt : Opt) (d : Doc)
     (h : parse T txt opt = .ok d) : WF d.nodes ∧ wfArenaB d.nodes = true := by
   have hw : WF d.nodes := (wf_iff_links d.nodes).mpr ⟨parsed_links T txt opt d h, parse_noAdj T txt opt d h⟩
   exact ⟨hw, (wfArenaB_iff d.nodes).mpr hw⟩
+
+/-- **Single root element** (all inputs, all options): among the children of the root node of every
+parsed document there is exactly one Element and no Text node — comments and PIs of prolog, DTD
+and epilog are the only other children. (The tokenizer delivers at most one top-level element and
+no top-level character data; an entity cannot close or open elements across its boundary — the
+D9 repair —; `parse` rejects a document without a root element.) -/
+theorem parsed_single_root (T : Tables) (txt : Bytes) (opt : Opt) (d : Doc)
+    (h : parse T txt opt = .ok d) : singleRootB d.nodes = true :=
+  parse_singleRoot T txt opt d h
 
 /-- Exactly one parentless node: node 0. -/
 theorem only_root_is_parentless (T : Tables) (txt : Bytes) (opt : Opt) (d : Doc)
